@@ -6,6 +6,7 @@ package badger
 import (
 	"context"
 	"fmt"
+	"runtime"
 	"sort"
 	"strings"
 	"testing/synctest"
@@ -267,9 +268,12 @@ func init() {
 // quiescence of the bubble (synctest.Wait), not by a wall-clock timeout.
 func init() {
 	registerEnum("c38sub", func(e *enumCtx) {
-		for _, backlog := range []int{3, 1005, 1500} { // beyond about 2000 queued batches commits block by design (back-pressure)
-			backlog := backlog
-			e.do(fmt.Sprintf("backlog%d", backlog), func() (c, d string) {
+		for _, bc := range []struct {
+			backlog int
+			single  bool // one publisher batch per commit (the bubble goes quiescent after every commit)
+		}{{3, false}, {1005, false}, {1500, false}, {3, true}, {999, true}, {1000, true}, {1001, true}, {1002, true}, {1003, true}, {1500, true}, {2500, false}, {2500, true}} {
+			backlog, single := bc.backlog, bc.single
+			e.do(fmt.Sprintf("backlog%d/single%v", backlog, single), func() (c, d string) {
 				inBubble(e.t, func() {
 					o := smallOpts("")
 					o.InMemory, o.Dir, o.ValueDir = true, "", ""
@@ -291,16 +295,40 @@ func init() {
 						subDone = true
 					}()
 					synctest.Wait()
-					for i := 0; i < backlog; i++ {
-						if err := db.Update(func(txn *Txn) error { return txn.Set([]byte(fmt.Sprintf("k%05d", i)), []byte("v")) }); err != nil {
-							c, d = "unexpected-error", fmt.Sprintf("commit %d with a slow subscriber: %v", i, err)
-							bubbleLeakOK = true
-							return
+					// the commits run in their own goroutine: with the publisher blocked on the full
+					// subscriber channel further commits wait (back-pressure, by design) until the
+					// subscription has ended; they must all complete after that
+					commitsDone := false
+					var commitErr error
+					go func() {
+						defer func() { commitsDone = true }()
+						for i := 0; i < backlog; i++ {
+							if err := db.Update(func(txn *Txn) error { return txn.Set([]byte(fmt.Sprintf("k%05d", i)), []byte("v")) }); err != nil {
+								commitErr = fmt.Errorf("commit %d with a slow subscriber: %v", i, err)
+								return
+							}
+							if single {
+								// one publisher batch per commit: wait until the publisher has taken it
+								// (no sleeping here: a sleeping goroutine counts as blocked for synctest.Wait)
+								for j := 0; j < 1000 && len(db.pub.pubCh) > 0; j++ {
+									runtime.Gosched()
+								}
+							}
 						}
-					}
+					}()
 					synctest.Wait()
 					close(release)
 					synctest.Wait()
+					if commitErr != nil {
+						c, d = "unexpected-error", commitErr.Error()
+						bubbleLeakOK = true
+						return
+					}
+					if subDone && !commitsDone {
+						c, d = "deadlock/Update", fmt.Sprintf("commits queued behind a slow subscriber (%d issued) never returned after the subscription ended", backlog)
+						bubbleLeakOK = true
+						return
+					}
 					if !subDone {
 						c, d = "deadlock/Subscribe", fmt.Sprintf("with %d batches queued for a subscriber whose callback then failed, Subscribe never returned (all goroutines of the process are blocked)", backlog)
 						bubbleLeakOK = true
